@@ -35,6 +35,18 @@ var BubbleStart = time.Date(2000, 1, 1, 0, 0, 0, 0, time.UTC)
 
 var ErrScripted = errors.New("syncfx: scripted getter error")
 
+// ErrKinds are the getter errors the scripts use: what KIND of error a request fails with must not matter to the
+// Syncer (any getter error only aborts the current attempt).
+var ErrKinds = []error{
+	ErrScripted,
+	fmt.Errorf("syncfx: nobody has it: %w", header.ErrNotFound),
+	fmt.Errorf("syncfx: peer went away: %w", context.Canceled),
+	fmt.Errorf("syncfx: peer too slow: %w", context.DeadlineExceeded),
+}
+
+// ErrKindName names ErrKinds[i] in the drivers' statistics.
+var ErrKindNames = []string{"plain", "not_found", "canceled", "deadline"}
+
 // ---------------------------------------------------------------- getter
 
 type RangeReq struct {
@@ -54,6 +66,7 @@ type Getter struct {
 	cur      *RangeReq
 	Log      [][2]uint64 // every range request (from height, to)
 	headAns  H           // answer of the next Head() call; nil = error
+	headErr  error       // returned along with headAns (a refusing answer: soft / hard VerifyError, plain error)
 	HeadCall int
 	ByHeight map[uint64]H // GetByHeight (bifurcation); missing = error
 	ByHLog   []uint64
@@ -78,7 +91,8 @@ func (g *Getter) Head(ctx context.Context, _ ...header.HeadOption[H]) (H, error)
 		gate := make(chan struct{})
 		g.headGate = gate
 		h := g.headAns
-		g.headAns = nil
+		herr := g.headErr
+		g.headAns, g.headErr = nil, nil
 		g.HeadCall++
 		g.mu.Unlock()
 		select {
@@ -92,6 +106,9 @@ func (g *Getter) Head(ctx context.Context, _ ...header.HeadOption[H]) (H, error)
 			g.mu.Unlock()
 			return nil, ctx.Err()
 		}
+		if herr != nil {
+			return h, herr
+		}
 		if h == nil {
 			return nil, ErrScripted
 		}
@@ -99,12 +116,24 @@ func (g *Getter) Head(ctx context.Context, _ ...header.HeadOption[H]) (H, error)
 	}
 	defer g.mu.Unlock()
 	g.HeadCall++
+	if g.headErr != nil {
+		h, herr := g.headAns, g.headErr
+		g.headAns, g.headErr = nil, nil
+		return h, herr
+	}
 	if g.headAns == nil {
 		return nil, ErrScripted
 	}
 	h := g.headAns
 	g.headAns = nil
 	return h, nil
+}
+
+// SetHeadAnswerErr scripts the next Head() call to return h together with err.
+func (g *Getter) SetHeadAnswerErr(h H, err error) {
+	g.mu.Lock()
+	g.headAns, g.headErr = h, err
+	g.mu.Unlock()
 }
 
 // ParkNextHead makes the next Head() call (which takes its scripted answer at once) wait until ReleaseHead.
@@ -434,6 +463,35 @@ func (f *Fixture) HeadCallP(ans H) int {
 	i := f.HeadCall(ans)
 	f.Getter.ClearPark() // total: a Head() call that never reached the getter must not leave the park armed for a later one
 	return i
+}
+
+// HeadCallShared makes two overlapping Syncer.Head() calls share one slow network head request, which the getter
+// answers (on ReleaseHead) with ans together with err: the first call asks and parks inside the getter, the second
+// joins it (syncHead is single-flight).  Returns both learner call numbers.
+func (f *Fixture) HeadCallShared(ans H, err error) (int, int) {
+	f.Getter.ParkNextHead()
+	i := len(f.results)
+	ch := make(chan error, 1)
+	f.results = append(f.results, ch)
+	f.Results = append(f.Results, 0)
+	f.Getter.SetHeadAnswerErr(ans, err)
+	go func() {
+		_, e := f.Syncer.Head(WithWho(context.Background(), i))
+		ch <- e
+	}()
+	synctest.Wait()
+	f.Getter.ClearPark()
+	j := len(f.results)
+	ch2 := make(chan error, 1)
+	f.results = append(f.results, ch2)
+	f.Results = append(f.Results, 0)
+	go func() {
+		_, e := f.Syncer.Head(WithWho(context.Background(), j))
+		ch2 <- e
+	}()
+	synctest.Wait()
+	f.Poll()
+	return i, j
 }
 
 func (f *Fixture) ReleaseHead() bool {
